@@ -7,7 +7,7 @@ PROP = "C17"
 SYMS = {
     "a": b"a", "e2": "é".encode(), "e3": "€".encode(), "e4": "\U0001F600".encode(),
     "cont": b"\x80", "lead": b"\xc3", "ff": b"\xff", "over": b"\xe0\x80", "surr": b"\xed\xa0\x80",
-    "big": b"\xf4\x90\x80\x80", "lead3": b"\xe2\x82", "lead4": b"\xf0\x9f\x98", "nl": b"\n",
+    "big": b"\xf4\x90\x80\x80", "c0af": b"\xc0\xaf", "c1bf": b"\xc1\xbf", "lead3": b"\xe2\x82", "lead4": b"\xf0\x9f\x98", "nl": b"\n",
 }
 
 def py_decode(data):
@@ -197,5 +197,24 @@ def run(ck):
         if ar.ok or ar.crashed:
             ck.violation("bytes %s inserted at offset %d of %s (not UTF-8): run ended %s instead of a diagnostic" % (bad.hex(), k, path, ar.canon()),
                          {"mode": "asm", "harness_case": c, "expected": "DIAG"})
+            break
+        # the diagnostic is located at the offending position: the file that holds the bad byte, and the line and
+        # column of the first sequence Python's own decoder rejects
+        blob = c.split("\t")[5]
+        raw = dict(x.split("=", 1) for x in blob.split("|"))
+        fdata = bytes.fromhex(raw[path])
+        try:
+            fdata.decode("utf8"); at = None
+        except UnicodeDecodeError as e:
+            at = e.start
+        before = fdata[:at].decode("utf8")
+        line = 1 + before.count("\n")
+        col = 1 + len(before) - (before.rfind("\n") + 1)
+        m = re.search(r'In "([^"]*)"', ar.msg or "")
+        loc = ar.loc()
+        if not m or m.group(1) != path or not loc or (loc[1], loc[2]) != (line, col):
+            ck.violation("bytes %s inserted at offset %d of %s: the first invalid sequence is at line %d column %d, the diagnostic names %s %s" % (
+                bad.hex(), k, path, line, col, m.group(1) if m else None, loc),
+                {"mode": "asm", "harness_case": c, "expected": "a diagnostic in %s at %d:%d" % (path, line, col)})
             break
     return ck
